@@ -11,6 +11,8 @@ import (
 	"database/sql"
 	"fmt"
 	"net/url"
+	"os"
+	"path/filepath"
 	"reflect"
 	"strings"
 	"testing"
@@ -367,6 +369,40 @@ func TestVerifC08(t *testing.T) {
 		clk.Advance(6 * time.Minute)
 		probe("admin-by-name,directory-down", "root1", 200, false)
 		dir.SetAll("up")
+		// two requests of a demoted administrator in flight after the memo expired, the directory answering slowly: the
+		// second must not be served from the expired verdict while the first is still asking
+		dir.SetGroups("grpadmin", []string{"km-admins"})
+		clk.Advance(6 * time.Minute)
+		probe("member-again", "grpadmin", 200, false)
+		dir.SetGroups("grpadmin", []string{"staff"})
+		clk.Advance(5*time.Minute + 2*time.Second)
+		release := dir.Hold()
+		r1, r2 := make(chan int, 1), make(chan int, 1)
+		go func() { r1 <- usersAs("grpadmin") }()
+		for i := 0; i < 100 && dir.Waiting() == 0; i++ {
+			time.Sleep(20 * time.Millisecond)
+		}
+		parked := dir.Waiting()
+		go func() { r2 <- usersAs("grpadmin") }()
+		early := 0
+		select {
+		case early = <-r2:
+		case <-time.After(1500 * time.Millisecond):
+		}
+		release()
+		c1 := <-r1
+		c2 := early
+		if early == 0 {
+			c2 = <-r2
+		}
+		rep.Eval(fmt.Sprintf("admin-memo|two-in-flight-after-expiry|first=%d|second=%d|second-before-directory-answered=%v", c1, c2, early != 0))
+		rep.Count("admin_memo_probes", 1)
+		if parked == 0 {
+			rep.Obs("two-in-flight: the first request's directory lookup was not seen waiting (not judged)")
+		} else if early == 200 || c1 == 200 || c2 == 200 {
+			rep.Violate("C08/admin-memo/demoted-admin-served-while-refresh-in-flight", "after the memo lifetime a demoted administrator's second request was served as administrator while the first request's directory lookup was still in flight",
+				map[string]interface{}{"first_status": c1, "second_status": c2, "second_answered_before_directory": early != 0})
+		}
 		// an automation admin may mint automation certificates and nothing else, in whichever order the two kinds of
 		// request arrive within one memo lifetime and after it
 		mintAs := func(user string) int {
@@ -428,8 +464,81 @@ func TestVerifC08(t *testing.T) {
 			}
 		}
 	}
+	c08GitDB(rep)
 	rep.Floor("automation_admin_sequence_probes", 20)
+	rep.Floor("gitdb_memo_probes", 4)
 	rep.Floor("forbidden_cells", 300)
 	rep.Floor("allowed_cells", 100)
-	rep.Floor("admin_memo_probes", 10)
+	rep.Floor("admin_memo_probes", 12)
+}
+
+// c08GitDB: administrators by group with the GitDB user-information source (a local repository directory the daemon
+// watches).  An administrator removed from the admin group - also one left without any group at all - is demoted once
+// the memo has expired and the source has picked the change up.
+func c08GitDB(rep *verifReport) {
+	repo, err := os.MkdirTemp(os.Getenv("VERIF_SCRATCH"), "gitdb-")
+	if err != nil {
+		rep.Inconc("gitdb: %v", err)
+		return
+	}
+	write := func(groups string) {
+		tmp := filepath.Join(repo, ".groups.tmp")
+		os.WriteFile(tmp, []byte(groups), 0644)
+		os.Rename(tmp, filepath.Join(repo, "groups.json"))
+	}
+	os.WriteFile(filepath.Join(repo, "permitted-groups.json"), []byte(`[".*"]`), 0644)
+	write(`[{"Name": "km-admins", "UserMembers": ["gita", "gitc"]}, {"Name": "staff", "UserMembers": ["gitb", "gitc"]}]`)
+	env, err := verifNewEnv(verifStateOpts{Name: "c08-gitdb", Users: map[string]string{"x": "y"}, AllowedCerts: []string{"password"}, AllowedWebUI: []string{"password"},
+		AdminGroups: []string{"km-admins"},
+		ExtraTop:    fmt.Sprintf("userinfo_sources:\n    gitdb:\n        local_repository_directory: %q\n        check_interval: 1s\n", repo)})
+	if err != nil {
+		rep.Inconc("gitdb deployment: %v", err)
+		return
+	}
+	clk, _, err := env.InstallAdminClock()
+	if err != nil {
+		rep.Inconc("gitdb: admin memo clock: %v", err)
+		return
+	}
+	ca := verifSigner("ca_rsa2048")
+	usersAs := func(user string) int {
+		ck := verifMint(verifSessionClaims(user, verifBit["password"]|verifBit["U2F"], time.Now().Add(-time.Minute), time.Hour), ca)
+		return env.Do(verifReq{Method: "GET", Path: "/users/", Cookies: verifCk(ck)}.Build()).Code
+	}
+	waitGroups := func(user string, want int) bool {
+		for i := 0; i < 150; i++ {
+			if len(env.GitDBGroups(user)) == want {
+				return true
+			}
+			time.Sleep(100 * time.Millisecond)
+		}
+		return false
+	}
+	if !waitGroups("gita", 1) || !waitGroups("gitc", 2) {
+		rep.Inconc("gitdb: the source did not load the groups (gita=%v gitc=%v)", env.GitDBGroups("gita"), env.GitDBGroups("gitc"))
+		return
+	}
+	probe := func(label, user string, want int) {
+		got := usersAs(user)
+		rep.Eval(fmt.Sprintf("gitdb-memo|%s|%d", label, got))
+		rep.Count("gitdb_memo_probes", 1)
+		if (got == 200) != (want == 200) {
+			rep.Violate("C08/gitdb-memo/"+label, fmt.Sprintf("GET /users/ as %s answered %d, expected %s", user, got, map[bool]string{true: "admin access", false: "refusal"}[want == 200]),
+				map[string]interface{}{"label": label, "status": got, "groups_in_source": env.GitDBGroups(user)})
+		}
+	}
+	probe("member-initially", "gita", 200)
+	probe("member-initially(control)", "gitc", 200)
+	probe("non-member", "gitb", 401)
+	// gita loses her only group, gitc keeps another one
+	write(`[{"Name": "km-admins", "UserMembers": ["root"]}, {"Name": "staff", "UserMembers": ["gitb", "gitc"]}]`)
+	if !waitGroups("gita", 0) || !waitGroups("gitc", 1) {
+		rep.Inconc("gitdb: the source did not pick the change up within 15 s")
+		return
+	}
+	clk.Advance(5*time.Minute + 2*time.Second)
+	probe("removed-from-last-group,+5m02s", "gita", 401)
+	probe("removed-from-admin-group,+5m02s(control)", "gitc", 401)
+	clk.Advance(6 * time.Minute)
+	probe("removed-from-last-group,+11m", "gita", 401)
 }
